@@ -123,7 +123,7 @@ def _shared_stream_form(ctx, rid, b, nx, fam, ck, other):
     news = [c for c in other if c.matches("CodedOutputStream::new")]
     wrs = [c for c in other if c.matches("Message::write_length_delimited_to")]
     fl = [c for c in other if c.matches("CodedOutputStream::flush")]
-    rest = [c for c in other if c not in news + wrs + fl]
+    rest = [c for c in other if c not in news + wrs + fl and not c.matches(["CodedOutputStream::total_bytes_written"])]     # (a read-only position query writes nothing)
     if len(news) != 1 or len(wrs) != 1 or not fl:
         return False
     os_ = news[0].result_term()
